@@ -4,7 +4,7 @@ VARIABLES hist, bad
 GInit == Init /\ hist = <<>> /\ bad = FALSE
 GNext == /\ Next
          /\ hist' = Append(hist, [a |-> last'.a, tok |-> last'.tok, ids |-> last'.ids, exp |-> last'.r])
-         /\ bad' = (bad \/ ~ReadsSeeLastWrite' \/ ~NoValueWithoutPr' \/ ~NoEventsWithoutEv' \/ ~ShapeRule' \/ (last'.a = "RemoteWrite" /\ ~W /\ (val' # val \/ last'.cb # "none")))
+         /\ bad' = (bad \/ ~ReadsSeeLastWrite' \/ ~NoValueWithoutPr' \/ ~NoEventsWithoutEv' \/ ~ShapeRule' \/ (last'.a \in {"RemoteWrite", "RemoteWriteSub"} /\ ~W /\ (val' # val \/ last'.cb # "none")) \/ (last'.a = "RemoteWrite" /\ W /\ last'.tok # val /\ last'.cb # last'.tok))
 MaxLen == 3
 WordBound == Len(hist) <= MaxLen
 EmitWord == Len(hist) = MaxLen => PrintT(<<"BEH", ToJson(hist)>>)
